@@ -26,6 +26,17 @@ Theorem C09_seen_stays_valid : forall split share ths acts k o r tr1 tr2,
 Proof. exact seen_stays_valid_lemma. Qed.
 Print Assumptions C09_seen_stays_valid.
 
+(* The detector never hears Update for a key before a New for it: together with the two theorems above,
+   the announcement trace of a key is New, then Updates, then its removal, then possibly New again.
+   (An activation looked up in one lifetime and executed after the key was swept and re-tracked lands
+   in the next lifetime; the statement is about the order of the first New.) *)
+Theorem C09_update_after_new : forall split share ths acts,
+  (forall t, handler_fresh (nth t ths TNone) = true) ->
+  forall k tr1 tr2, trace (run split share (init ths) acts) = tr1 ++ EUpd k :: tr2 ->
+  exists o r, In (EAnn k o r) tr2.
+Proof. exact update_after_new_lemma. Qed.
+Print Assumptions C09_update_after_new.
+
 (* ... and, for the code with TrackRegIfNotExists, what the handler is handed (and what is announced)
    had its own covert address checked and resolved by its own ingest first -- sweeper, reloads and
    ageing included. *)
